@@ -34,12 +34,14 @@ structure ScoreOps (S : Type) where
   lt  : S → S → Bool
   add : S → S → S
   mul : S → S → S
+  /-- the score every hit carries when scores are not computed (`ScoreMode::MatchOnly`) -/
+  zero : S
 
 def ScoreOps.max {S : Type} (o : ScoreOps S) (a b : S) : S := if o.lt a b then b else a
 def ScoreOps.min {S : Type} (o : ScoreOps S) (a b : S) : S := if o.lt b a then b else a
 
 /-- integer scores: used by the `decide` witnesses -/
-def intOps : ScoreOps Int := ⟨fun a b => decide (a < b), (· + ·), (· * ·)⟩
+def intOps : ScoreOps Int := ⟨fun a b => decide (a < b), (· + ·), (· * ·), 0⟩
 
 /-- `RescoreMode` -/
 inductive Mode where
@@ -103,6 +105,9 @@ structure SortSpec where
 deriving DecidableEq, Repr
 
 abbrev Plan := List SortSpec
+
+/-- `SortPlan::uses_score` -/
+def usesScore (p : Plan) : Bool := p.any fun sp => sp.field == .score
 
 /-- `score_fast_path`: `is_score_only() && primary_order() == Desc` -/
 def isFast (p : Plan) : Bool := p == [⟨.score, true⟩]
@@ -274,6 +279,8 @@ structure Req (S : Type) where
   returnHits : Bool
   explain : Bool
   profile : Bool
+  /-- `needs_score_hook`: the query has custom scoring (function_score, constant_score, …) -/
+  hook : Bool
   nseg : Nat
   /-- key of the last hit of the previous page, hits returned so far -/
   cursor : Option (Hit S × Nat)
@@ -309,35 +316,58 @@ def returned (c : Option (Hit S × Nat)) : Nat :=
   | none => 0
   | some (_, n) => n
 
-/-- everything after `hits.sort_by(key)`: rescoring, explanations, collapse, truncation.
-`resc` is the rescoring function (mechanism or spec). -/
+/-- rescoring step; `resc` is the rescoring function (mechanism `rescore o` or `rescoreSpec o`) -/
+def rescored (o : ScoreOps S) (r : Req S)
+    (resc : (Hit S → Hit S → Bool) → Mode → Bool → Nat → List (Hit S) → List (Hit S))
+    (ranked : List (Hit S)) : List (Hit S) :=
+  match r.rescore with
+  | none => ranked
+  | some rr => resc (klt o r.plan) rr.mode r.explain rr.window ranked
+
+/-- the `if req.explain` loop -/
+def explained (r : Req S) (l : List (Hit S)) : List (Hit S) :=
+  if r.explain then l.map setFinal else l
+
+/-- collapse step (or every hit on its own, without inner hits) -/
+def grouped (o : ScoreOps S) (r : Req S) (l : List (Hit S)) : List (Hit S × List (Hit S)) :=
+  match r.collapse with
+  | none => l.map fun h => (h, [])
+  | some c =>
+    match c.inner with
+    | none => collapse (klt o r.plan) (klt o r.plan) none true l
+    | some (ip, cfg) => collapse (klt o r.plan) (klt o ip) (some cfg) (ip == r.plan) l
+
+/-- what is returned of the grouped hits: the page, `total_groups`, the hit behind `next_cursor` -/
+def page (r : Req S) (gs : List (Hit S × List (Hit S))) :
+    List (Hit S × List (Hit S)) × Option Nat × Option (Hit S) :=
+  (gs.take r.limit,
+   (match r.collapse with | none => none | some _ => some gs.length),
+   if gs.length > r.limit then (gs.take r.limit).getLast?.map (·.1) else none)
+
+/-- everything after `hits.sort_by(key)`: rescoring, explanations, collapse, truncation -/
 def post (o : ScoreOps S) (r : Req S)
     (resc : (Hit S → Hit S → Bool) → Mode → Bool → Nat → List (Hit S) → List (Hit S))
     (ranked : List (Hit S)) : List (Hit S × List (Hit S)) × Option Nat × Option (Hit S) :=
-  let lt := klt o r.plan
-  let h1 := match r.rescore with
-    | none => ranked
-    | some rr => resc lt rr.mode r.explain rr.window ranked
-  let h2 := if r.explain then h1.map setFinal else h1
-  let (gs, tg) := match r.collapse with
-    | none => (h2.map fun h => (h, ([] : List (Hit S))), (none : Option Nat))
-    | some c =>
-      let g := match c.inner with
-        | none => collapse lt lt none true h2
-        | some (ip, cfg) => collapse lt (klt o ip) (some cfg) (ip == r.plan) h2
-      (g, some g.length)
-  let next := if gs.length > r.limit then (gs.take r.limit).getLast?.map (·.1) else none
-  (gs.take r.limit, tg, next)
+  page r (grouped o r (explained r (rescored o r resc ranked)))
 
-/-- the code -/
-def search (o : ScoreOps S) (r : Req S) (matched : List (Hit S)) : Resp S :=
+/-- `score_mode` in `search_segment` / `default_score` in `scan_segment`: scores are computed
+only when the sort uses `_score`, the query has custom scoring, or `explain` is set; otherwise
+every accepted document carries the score 0 -/
+def scoresComputed (r : Req S) : Bool := usesScore r.plan || r.hook || r.explain
+
+def seen (o : ScoreOps S) (r : Req S) (h : Hit S) : Hit S :=
+  if scoresComputed r then h else { h with score := o.zero }
+
+/-- the code; `matched` carries the true scores -/
+def search (o : ScoreOps S) (r : Req S) (matched0 : List (Hit S)) : Resp S :=
   let lt := klt o r.plan
+  let matched := matched0.map (seen o r)
   let after := afterCursor lt r.cursor matched
-  let (hs, tg, nx) :=
+  let p :=
     if r.returnHits then
       post o r (rescore o) (fetch lt (isFast r.plan) r.explain (topKOf r) r.nseg after)
     else ([], none, none)
-  { hits := hs, total := after.length + returned r.cursor, totalGroups := tg, next := nx,
+  { hits := p.1, total := after.length + returned r.cursor, totalGroups := p.2.1, next := p.2.2,
     aggTerms := aggTerms after, aggCount := aggCount r.aggField after, profile := r.profile }
 
 namespace Spec
@@ -347,9 +377,9 @@ aggregations see every matching document -/
 def search (o : ScoreOps S) (r : Req S) (matched : List (Hit S)) : Resp S :=
   let lt := klt o r.plan
   let after := afterCursor lt r.cursor matched
-  let (hs, tg, nx) :=
+  let p :=
     if r.returnHits then post o r (rescoreSpec o) (isort lt after) else ([], none, none)
-  { hits := hs, total := after.length + returned r.cursor, totalGroups := tg, next := nx,
+  { hits := p.1, total := after.length + returned r.cursor, totalGroups := p.2.1, next := p.2.2,
     aggTerms := aggTerms matched, aggCount := aggCount r.aggField matched, profile := r.profile }
 
 end Spec
